@@ -30,6 +30,17 @@ func notClaimed() [][2]string {
 func props() []prop {
 	return []prop{
 		{
+			ID: "C14", Level: "fault_enumeration",
+			LevelText:   "Connection faults are enumerated against real systems on loopback: the proxy cuts the stream after exactly k bytes for every 8th (thorough: every) byte offset of a handshake + 5-frame stream x reconnect limits, then heals; connections refused for the whole retry budget; a raw client injects undecodable / truncated / unknown-name / oversize / zero-length frames in front of valid frames on one connection; an unframeable 5 MiB payload between normal messages; peer stop and restart on the same address. Deciding monitors: subsequence/CRC monitor at the receiving behaviour, recovery monitor (after the first delivery over the healed link nothing is lost any more), dead-letter ledger on the sender, and a goroutine-stack witness (a logical observation, no timing) for 'Tell blocks its caller in the reconnect loop'.",
+			LevelNote:   "Trusted: loopback TCP; the first write after a peer-side close can be accepted by the kernel and lost (TCP semantics): the recovery clause therefore starts at the first post-heal delivery. Bounded-progress restatement of 'later messages are delivered': within 12 sends 15 ms apart.",
+			Technique:   "fault enumeration (cut at every byte offset, refuse, inject, restart) with offline monitors over recorded deliveries, dead letters and goroutine stacks",
+			DesignRef:   "DESIGN.md §4 C14",
+			Assumptions: with("loopback only; blackhole (handshake never answered) runs into the 10 s handshake deadline and is not in the quick tier"),
+			Units: []unit{
+				{Check: "remotefaults", Pkg: "internal/actor", Shards: [2]int{8, 16}, Timeout: [2]time.Duration{10 * min, 60 * min}, CrashKey: "c14-crash", OnlyKinds: []string{"c14-", "harness-"}},
+			},
+		},
+		{
 			ID: "C11", Level: "exploration",
 			LevelText:   "Two real actor systems talk over loopback TCP through an in-harness proxy that never drops a byte but re-segments the stream in four ways (as is, 1-byte writes, PRNG splits, coalescing), i.e. it varies exactly what kernel timing otherwise decides: how frames are split over reads. Every message carries (sender, sequence number, CRC); the monitor at the receiving behaviours decides exactly-once / order / integrity from the sequence numbers (a gap is a loss only when a later message of that sender arrived), Ask replies must carry the asker's id, observers on both systems must see no decode failure and no dead letter.",
 			LevelNote:   "Trusted: loopback TCP only (no kernel-level reordering, no TLS); the final 'tail' clause waits until nothing moved for 5 s and is skipped (inconclusive) when the stall detector saw the scheduler starve for > 1 s.",
